@@ -384,7 +384,7 @@ Section Model.
       | [] => Err EIndex
       | v :: r => match pytrunc e v with
                   | None => Err EValue
-                  | Some n => Ok (mkKws None None None None None None (Some n) None None, r)
+                  | Some n => Ok (mkKws None None None None None None (Some (Z.abs n)) None None, r)
                   end
       end
     else if has "rho" elt then
